@@ -295,6 +295,10 @@ def main():
                 F.violation("C10:child-record-count=%d" % len(recs), "child's call produced %d records (%s)" % (len(recs), desc), wit)
             elif recs[0].split("|")[-1] != "1":
                 tot["child_saw_parent_threads_registered"] = tot.get("child_saw_parent_threads_registered", 0) + 1     # informational: not part of the property
+        if ev.get("fork_waited_for_lock") and ev["stop_kind"] in ("io:open", "io:write", "io:close", "io:socket", "io:send", "io:flock"):
+            # the forking thread had to wait until another thread got on with the I/O on its *log sink*: a sink that blocks
+            # (FIFO without reader, full pipe) then blocks fork() itself for as long
+            F.violation("C10:fork-waits-for-log-sink", "fork() in another thread did not return while a thread was stopped right before %s of its log output (%s)" % (ev["stop_kind"][3:], desc), wit)
         if ev["victims_done"] != ev["victims"]:
             F.violation("C10:parent-thread-stuck", "%d of %d parent threads finished after the fork (%s)" % (ev["victims_done"], ev["victims"], desc), wit)
         if ev["problem"]:
